@@ -122,8 +122,11 @@ BinValues(op, l, r, st) ==
          (CASE op = "==" -> Ok(B(l.b = r.b), st) [] op = "!=" -> Ok(B(l.b # r.b), st)
             [] op = "+" -> Unspec(st) [] OTHER -> Err(st))
     [] l.t = "bool" -> IF op \in {"==", "!=", "+"} THEN Unspec(st) ELSE Err(st)
-    [] l.t = "arr" -> IF op = "+" THEN Unspec(st) ELSE Err(st)
-    [] l.t \in {"chunks", "perm", "html", "opq"} \/ r.t \in {"chunks", "perm", "opq"} -> Unspec(st)
+    \* array + x: the array with x appended as ONE element -- an opaque value that prints its elements; anything else
+    \* done with it is not specified
+    \* (a typed Go slice accepts only values of its element type: not specified here)
+    [] l.t = "arr" -> IF op # "+" THEN Err(st) ELSE IF "go" \in DOMAIN l THEN Unspec(st) ELSE Ok([t |-> "arrx", xs |-> Append(l.xs, r)], st)
+    [] l.t \in {"chunks", "perm", "html", "opq", "arrx"} \/ r.t \in {"chunks", "perm", "opq", "arrx"} -> Unspec(st)
     [] OTHER -> IF op \in {"==", "!="} /\ l.t # r.t /\ l.t \in {"int", "flt"} /\ r.t \in {"str", "bool", "int", "flt"}
                 THEN (IF {l.t, r.t} = {"int", "flt"} THEN Err(st) ELSE Unspec(st))
                 ELSE Err(st)                         \* operand-type mismatch
@@ -137,7 +140,7 @@ Pieces(v) ==
     [] v.t = "int"    -> <<[k |-> "raw", s |-> IntChars(v.n)]>>
     [] v.t = "flt"    -> <<[k |-> "raw", s |-> FloatChars(v)]>>
     [] v.t = "bool"   -> <<[k |-> "raw", s |-> PrintChars(v)]>>
-    [] v.t = "arr"    -> Flat([i \in 1..Len(v.xs) |-> Pieces(v.xs[i])])
+    [] v.t \in {"arr", "arrx"} -> Flat([i \in 1..Len(v.xs) |-> Pieces(v.xs[i])])
     [] v.t = "chunks" -> Flat([i \in 1..Len(v.cs) |-> Pieces(v.cs[i])])
     [] v.t = "perm"   -> <<[k |-> "perm", alts |-> [i \in 1..Len(v.alts) |-> Flat([j \in 1..Len(v.alts[i]) |-> Pieces(v.alts[i][j])])]]>>
     [] OTHER          -> <<>>                        \* nil, maps: nothing
@@ -146,7 +149,7 @@ RECURSIVE SinkSpecified(_)
 SinkSpecified(v) ==
   CASE v.t \in {"fn", "gofn", "iter", "opq", "rec", "time"} -> FALSE
     [] v.t = "flt"    -> FloatPrintable(v)
-    [] v.t = "arr"    -> \A i \in 1..Len(v.xs) : SinkSpecified(v.xs[i])
+    [] v.t \in {"arr", "arrx"} -> \A i \in 1..Len(v.xs) : SinkSpecified(v.xs[i])
     [] v.t = "chunks" -> \A i \in 1..Len(v.cs) : SinkSpecified(v.cs[i])
     [] v.t = "perm"   -> \A i \in 1..Len(v.alts) : \A j \in 1..Len(v.alts[i]) : SinkSpecified(v.alts[i][j])
     [] OTHER          -> TRUE
@@ -407,6 +410,11 @@ CallGo(name, e, st) ==
     [] name = "failrec" -> \* failrec(id): a (struct, error) helper: records the call, returns a struct AND the sentinel error
          IF n # 1 \/ a.vs[1].t # "int" THEN Unspec(s1) ELSE ErrW(Log(s1, [f |-> "fail", id |-> a.vs[1].n, v |-> Nil]))
     [] name = "id" ->  IF n # 1 THEN Unspec(s1) ELSE Ok(a.vs[1], s1)
+    [] name = "boldh" ->   \* boldh(h template.HTML): a Go helper whose parameter is trusted HTML; string data is not assignable to it
+         IF n # 1 THEN Unspec(s1)
+         ELSE IF a.vs[1].t = "html" /\ "go" \in DOMAIN a.vs[1] THEN Err(s1)          \* an HTMLer is not a template.HTML
+         ELSE IF a.vs[1].t = "html" THEN Ok(H(<<"<", "b", ">">> \o a.vs[1].s \o <<"<", "/", "b", ">">>), s1)
+         ELSE IF a.vs[1].t = "str" THEN Err(s1) ELSE Unspec(s1)
     [] name = "vcount" -> Ok(I(n), s1)      \* vcount(xs...): a variadic Go helper, the number of arguments it received
     [] name = "getx" ->    \* getx(): the Go value the context data binds to x, handed over as a helper's result
          IF n # 0 \/ "x" \notin DOMAIN s1.sc[1] THEN Unspec(s1) ELSE Ok(s1.sc[1]["x"], s1)
